@@ -12,6 +12,10 @@ lock = json.load(open(path)) if os.path.exists(path) else {}
 tpath = V + '/contracts/trusted_text.lock.json'
 tlock = json.load(open(tpath)) if os.path.exists(tpath) else dict(assumed_functions={}, files={})
 tlock.setdefault('known_functions', {})
+fpath = V + '/contracts/fn_text.lock.json'
+ftext = json.load(open(fpath)) if os.path.exists(fpath) else {}
+import re
+from rustlex import strip_comments
 for u in units:
     cfg = load_unit_cfg(u); cfg['crate_name'] = 'unit'; cfg['shape_lock'] = None
     text, meta = EX.build_unit(cfg)
@@ -21,8 +25,19 @@ for u in units:
         if f['mode'] == 'assumed' and 'norm_sha' in f and f.get('contract_file') and 'E9' not in f.get('rules', []):
             tlock['assumed_functions'][f['key']] = f['norm_sha']
     tlock['known_functions'][u] = sorted(f['key'] for f in meta['functions'])
+    _files = {}
+    for f in meta['functions']:
+        if f.get('contract_file') and f.get('file') and f.get('lines'):
+            try:
+                if f['file'] not in _files:
+                    _files[f['file']] = open(os.path.join(os.environ.get('VERIF_REPO', '/repo'), f['file'])).read().split('\n')
+                src = '\n'.join(_files[f['file']][f['lines'][0] - 1:f['lines'][1]])
+                ftext[f['key']] = re.sub(r'\s+', ' ', strip_comments(src)).strip()
+            except Exception:
+                pass
     for rel in cfg.get('trusted_files', {}):
         tlock['files'][rel] = EX.norm_sha(open(os.path.join(os.environ.get('VERIF_REPO', '/repo'), rel)).read())
 json.dump(lock, open(path, 'w'), indent=0, sort_keys=True)
 json.dump(tlock, open(tpath, 'w'), indent=0, sort_keys=True)
+json.dump(ftext, open(fpath, 'w'), indent=0, sort_keys=True)
 print('wrote', path, len(lock), 'functions;', tpath, len(tlock['assumed_functions']), 'assumed functions,', len(tlock['files']), 'files')
